@@ -712,6 +712,66 @@ func c07Overlaps(hist []c07Rec) (rw, ww int) {
 	return rw, ww
 }
 
+// c07Corpus: hand-written plans run first in every tier.
+func c07Corpus() []c07Plan {
+	rs := func(src int, rules ...c07Rule) []c07Rule {
+		for i := range rules {
+			rules[i].Src = src
+		}
+
+		return rules
+	}
+	find := func(ps ...int) []c07Op {
+		var out []c07Op
+		for _, p := range ps {
+			out = append(out, c07Op{Kind: "find", Path: p})
+		}
+
+		return out
+	}
+
+	return []c07Plan{
+		{ // two providers claim the same path at the same time: exactly one wins, readers see none or the winner
+			Writers: [][]c07Op{
+				{{Kind: "add", Src: 0, Rules: rs(0, c07Rule{ID: 1, Hash: 1, Paths: []int{0, 1}})}},
+				{{Kind: "add", Src: 1, Rules: rs(1, c07Rule{ID: 1, Hash: 2, Paths: []int{1, 2}})}},
+			},
+			Readers: [][]c07Op{find(1, 0, 2, 1), find(2, 1, 0)},
+		},
+		{ // a multi-rule update must appear all at once: after /a shows the new version, /a/b and /a/c do too
+			Writers: [][]c07Op{
+				{
+					{Kind: "add", Src: 0, Rules: rs(0, c07Rule{ID: 1, Hash: 0, Paths: []int{0}}, c07Rule{ID: 2, Hash: 0, Paths: []int{1}}, c07Rule{ID: 3, Hash: 0, Paths: []int{2}})},
+					{Kind: "update", Src: 0, Rules: rs(0, c07Rule{ID: 1, Hash: 1, Paths: []int{0}}, c07Rule{ID: 2, Hash: 1, Paths: []int{1}}, c07Rule{ID: 3, Hash: 1, Paths: []int{2}})},
+					{Kind: "update", Src: 0, Rules: rs(0, c07Rule{ID: 1, Hash: 2, Paths: []int{0}}, c07Rule{ID: 2, Hash: 2, Paths: []int{1}}, c07Rule{ID: 3, Hash: 2, Paths: []int{2}})},
+				},
+				{{Kind: "add", Src: 1, Rules: rs(1, c07Rule{ID: 1, Hash: 0, Paths: []int{4}})}, {Kind: "delete", Src: 1}},
+			},
+			Readers: [][]c07Op{find(0, 1, 2, 0, 1, 2), find(2, 1, 0, 2, 1, 0), find(4, 0, 4, 2)},
+		},
+		{ // independent providers: none of the changes may be lost
+			Writers: [][]c07Op{
+				{{Kind: "add", Src: 0, Rules: rs(0, c07Rule{ID: 1, Hash: 0, Paths: []int{0}})}, {Kind: "update", Src: 0, Rules: rs(0, c07Rule{ID: 1, Hash: 1, Paths: []int{0}}, c07Rule{ID: 2, Hash: 0, Paths: []int{3}})}},
+				{{Kind: "add", Src: 1, Rules: rs(1, c07Rule{ID: 1, Hash: 0, Paths: []int{4}})}, {Kind: "update", Src: 1, Rules: rs(1, c07Rule{ID: 1, Hash: 1, Paths: []int{4}}, c07Rule{ID: 2, Hash: 0, Paths: []int{5}})}},
+				{{Kind: "add", Src: 2, Rules: rs(2, c07Rule{ID: 1, Hash: 0, Paths: []int{7}})}, {Kind: "update", Src: 2, Rules: rs(2, c07Rule{ID: 1, Hash: 1, Paths: []int{7}}, c07Rule{ID: 2, Hash: 0, Paths: []int{8}})}},
+			},
+			Readers: [][]c07Op{find(0, 4, 7, 3, 5, 8)},
+		},
+		{ // delete racing with lookups and a re-add, with a default rule
+			Default: true,
+			Writers: [][]c07Op{
+				{
+					{Kind: "add", Src: 0, Rules: rs(0, c07Rule{ID: 1, Hash: 0, Paths: []int{5, 6}})},
+					{Kind: "delete", Src: 0},
+					{Kind: "add", Src: 0, Rules: rs(0, c07Rule{ID: 1, Hash: 1, Paths: []int{6}})},
+				},
+				{{Kind: "update", Src: 1, Rules: rs(1, c07Rule{ID: 1, Hash: 0, Paths: []int{5}})}, {Kind: "delete", Src: 1}},
+			},
+			Readers: [][]c07Op{find(5, 6, 5, 6, 5), find(6, 5, 6)},
+		},
+	}
+}
+
 func TestVerifC07(t *testing.T) {
 	n := vf.N(200)
 	rnd := vf.NewRand(vf.Seed())
@@ -725,9 +785,17 @@ func TestVerifC07(t *testing.T) {
 	w := vf.NewWriter()
 	defer w.Close()
 
+	corpus := c07Corpus()
+
 	for i := 0; i < n; i++ {
 		r := rnd.Fork(uint64(i))
 		plan := c07GenPlan(r, thorough)
+		stream := "stress"
+
+		if i < len(corpus) {
+			plan = corpus[i]
+			stream = "corpus"
+		}
 
 		if !vf.Want(i) {
 			continue
@@ -816,7 +884,7 @@ func TestVerifC07(t *testing.T) {
 		}
 
 		w.Put(vf.Obs{
-			I: i, Stream: "stress", In: plan, Out: map[string]any{"history": hist, "witness": order, "linearizable": lin},
+			I: i, Stream: stream, In: plan, Out: map[string]any{"history": hist, "witness": order, "linearizable": lin},
 			Coq:        fmt.Sprintf("(mk_case %s %s)", vf.CoqBool(plan.Default), vf.CoqList(items)),
 			Nontrivial: rw+ww > 0, Tags: tags,
 		})
